@@ -121,6 +121,10 @@ def library_stream(chk, rng, n, stats):
         ("%Count(start=10,width=4)-%Name()", lambda nm, k: "%04d-%s" % (10 + k, nm)),
         ("%Base()%Base()%Ext()", lambda nm, k: stem_suffix(nm)[0] * 2 + stem_suffix(nm)[1]),
         ("%Count(step=5)_%Count(start=1)%Ext()", lambda nm, k: "%d_%d%s" % (5 * k, 1 + k, stem_suffix(nm)[1])),
+        # generated names that begin or end with blanks are names like any other
+        ("%Pad(9,left){%Base()}%Ext()", lambda nm, k: stem_suffix(nm)[0].rjust(9) + stem_suffix(nm)[1]),
+        ("%Pad(12,right){%Name()}", lambda nm, k: nm.ljust(12)),
+        (" %Count(width=2) %Name()  ", lambda nm, k: " %02d %s  " % (k, nm)),
     ]
     names = ["a.txt", "b.txt", "c.dat", "Readme", "x.tar.gz", "IMG_1.jpg", "img_2.JPG", "é.txt", "a b.c", "z"]
     for _ in range(n):
@@ -319,6 +323,10 @@ def run(chk):
     excluded = pipe.check_cases(chk, scns, obss)
     library_stream(chk, rng, 200 if quick else 8000, stats)
     library_stream_modes(chk, rng, 240 if quick else 8000, stats)
+    # whole-program model (Whole/Main.v: compile + gather + order + render + run) against the real command line, no plan injection
+    import whole
+    import random as _random
+    whole.whole_stream(chk, _random.Random(chk.seed * 7919 + 2), 150 if quick else 6000, stats)
     for s, o in list(zip(scns, obss))[-3:]:
         chk.sample({"mode": s["mode"], "plan": [(e["dir"], e["rel"], e["r"]) for e in s["plan"]][:5], "status": o["status"], "report": o["report"][:4]})
     chk.coverage["rule"] = (
